@@ -2,14 +2,25 @@
 matter (repeated key components, leading zeros, boundary lengths) and one-argument
 variants for history-style sequences."""
 DIG = "0123456789"
+WEAK_DES = [bytes.fromhex(x) for x in (
+    "0101010101010101", "FEFEFEFEFEFEFEFE", "E0E0E0E0F1F1F1F1", "1F1F1F1F0E0E0E0E",          # weak
+    "011F011F010E010E", "1F011F010E010E01", "01E001E001F101F1", "E001E001F101F101", "01FE01FE01FE01FE", "FE01FE01FE01FE01",
+    "1FE01FE00EF10EF1", "E01FE01FF10EF10E", "1FFE1FFE0EFE0EFE", "FE1FFE1FFE0EFE0E", "E0FEE0FEF1FEF1FE", "FEE0FEE0FEF1FEF1",  # semi-weak
+    "0000000000000000", "FFFFFFFFFFFFFFFF")]
 
 
 def key(rng, n):
     """n-byte key with structure: random / all equal bytes / repeated 8-byte component (K1K2K1, KKK) /
     parity-adjusted / containing 0x00 and 0xFF"""
-    k = rng.randrange(10)
+    k = rng.randrange(12)
     if k <= 3 or n < 8:
         return rng.randbytes(n)
+    if k >= 10:
+        # DES weak and semi-weak keys as components (legal key material: every standard defines the result for them)
+        parts = [rng.choice(WEAK_DES) if rng.random() < 0.7 else rng.randbytes(8) for _ in range(4)]
+        if not any(p in WEAK_DES for p in parts[:max(1, n // 8)]):
+            parts[0] = rng.choice(WEAK_DES)
+        return b"".join(parts)[:n] + rng.randbytes(max(0, n - 32))
     if k == 4:
         return bytes([rng.randrange(256)]) * n
     comp = [rng.randbytes(8) for _ in range(3)]
